@@ -234,7 +234,7 @@ fn check(id: &str, tier: Tier, seed: u64, args: &[String]) -> i32 {
                 break;
             }
             // confirm in a fresh process, then minimise
-            let conf = eval_subprocess(sc.name(), id, tier, &f.case, 300);
+            let conf = eval_subprocess_with(sc.worker_exe(), sc.name(), id, tier, &f.case, 300);
             let (class, detail) = match &conf.verdict {
                 Verdict::Violation { class, detail } => (class.clone(), detail.clone()),
                 Verdict::Known { id: kid, detail } => {
@@ -249,7 +249,7 @@ fn check(id: &str, tier: Tier, seed: u64, args: &[String]) -> i32 {
             };
             let shrink_deadline = Instant::now() + Duration::from_secs(if tier == Tier::Quick { 40 } else { 120 });
             let (min_case, evals) = shrink(*sc, id, tier, &f.case, &class, 400, shrink_deadline);
-            let fin = eval_subprocess(sc.name(), id, tier, &min_case, 300);
+            let fin = eval_subprocess_with(sc.worker_exe(), sc.name(), id, tier, &min_case, 300);
             let (fclass, fdetail, fdig) = match &fin.verdict {
                 Verdict::Violation { class, detail } => (class.clone(), detail.clone(), fin.digest),
                 _ => (class.clone(), detail.clone(), conf.digest),
